@@ -137,7 +137,21 @@ impl<'p> Painter<'p> {
         }
 
         // Nothing found, try the user provided fallback, or the internal fallback.
-        if let Some(syntax) = syntax_set.find_syntax_for_file(fallback).unwrap_or(None) {
+        // (By name only, like above: `find_syntax_for_file` would open a file of that name in the
+        // current directory and decide by its first line.)
+        let fallback_path = std::path::Path::new(fallback);
+        let fallback_name = fallback_path
+            .file_name()
+            .and_then(|n| n.to_str())
+            .unwrap_or("");
+        let fallback_extension = fallback_path
+            .extension()
+            .and_then(|x| x.to_str())
+            .unwrap_or("");
+        if let Some(syntax) = syntax_set
+            .find_syntax_by_extension(fallback_name)
+            .or_else(|| syntax_set.find_syntax_by_extension(fallback_extension))
+        {
             syntax
         } else {
             syntax_set
